@@ -674,7 +674,8 @@ type c20NodeCheck struct {
 // a CID parsed from a value originating in a parameter of fn or in the archive entry name.
 func c20NodeChecked(fn *ssa.Function, n ssa.Value, use *ssa.BasicBlock, depth int) c20NodeCheck {
 	n = c20Strip(n)
-	why := "no comparison of the node's recomputed CID with the CID of the file name"
+	const noCmp = "no comparison of the node's recomputed CID with the CID of the file name"
+	why := noCmp
 	for _, cmp := range c20Comparisons(fn) {
 		a, b := c20CidExpr(cmp.X), c20CidExpr(cmp.Y)
 		if b.Kind == "node" {
@@ -698,6 +699,80 @@ func c20NodeChecked(fn *ssa.Function, n ssa.Value, use *ssa.BasicBlock, depth in
 		}
 		return c20NodeCheck{OK: true, Orig: orig, Via: []*ssa.Function{fn}}
 	}
+	// checked by a module callee that receives the node and the expected CID: every success
+	// return of the callee lies behind the comparison of (the CID of) its node parameter with
+	// its expected-CID parameter, and its error is enforced here before the use
+	if depth < 3 {
+		for _, b := range fn.Blocks {
+			for _, in := range b.Instrs {
+				call, ok := in.(*ssa.Call)
+				if !ok {
+					continue
+				}
+				cal := staticCallee(call.Common())
+				if cal == nil || cal.Blocks == nil || !inModule(cal) || cal == fn || errResultIndex(cal.Signature) < 0 {
+					continue
+				}
+				ni := -1
+				for i, a := range call.Common().Args {
+					if c20Strip(a) == n && i < len(cal.Params) {
+						ni = i
+					}
+				}
+				if ni < 0 {
+					continue
+				}
+				var src *ssa.Parameter
+				okSum, nret, whySum := true, 0, ""
+				for _, r := range returnsOf(cal) {
+					if !isSuccessReturn(r) {
+						continue
+					}
+					nret++
+					sub := c20NodeChecked(cal, cal.Params[ni], r.Block(), depth+1)
+					if !sub.OK || sub.Orig.Param == nil || (src != nil && src != sub.Orig.Param) {
+						okSum = false
+						if !sub.OK {
+							whySum = sub.Why
+						}
+						break
+					}
+					src = sub.Orig.Param
+				}
+				if !okSum || nret == 0 || src == nil {
+					if whySum != "" {
+						why = fnName(cal) + ": " + whySum
+					}
+					continue
+				}
+				ev := errVerdict(call)
+				if ev == nil || !c20UnreachableWithout(use, edgesOfVerdict(ev).Accept) {
+					why = "the CID check of " + fnName(cal) + " is not enforced: its error does not guard every path to the use of the node"
+					continue
+				}
+				si := -1
+				for i, p := range cal.Params {
+					if p == src {
+						si = i
+					}
+				}
+				if si < 0 || si >= len(call.Common().Args) {
+					continue
+				}
+				exp := c20CidExpr(call.Common().Args[si])
+				if exp.Kind == "node" {
+					why = "the CID handed to " + fnName(cal) + " as the expected one is a node's own CID, not the CID of the file name"
+					continue
+				}
+				orig, ok := c20Origin(exp.Base)
+				if !ok {
+					why = "the expected CID handed to " + fnName(cal) + " does not come from the archive entry name"
+					continue
+				}
+				return c20NodeCheck{OK: true, Orig: orig, Via: []*ssa.Function{cal}}
+			}
+		}
+	}
 	// produced by a module callee that does the comparison?
 	if ex, ok := n.(*ssa.Extract); ok && depth < 3 {
 		if call, ok := ex.Tuple.(*ssa.Call); ok {
@@ -715,6 +790,9 @@ func c20NodeChecked(fn *ssa.Function, n ssa.Value, use *ssa.BasicBlock, depth in
 					nret++
 					sub := c20NodeChecked(cal, res[ex.Index], r.Block(), depth+1)
 					if !sub.OK {
+						if why != noCmp {
+							return c20NodeCheck{Why: why}
+						}
 						return c20NodeCheck{Why: fnName(cal) + ": " + sub.Why}
 					}
 					if orig != nil && *orig != sub.Orig {
@@ -1282,7 +1360,8 @@ func c20Varargs(v ssa.Value) []ssa.Value {
 type c20Entry struct {
 	Fn     *ssa.Function // function holding the WriteHeader call
 	Site   ssa.CallInstruction
-	Ctx    *ssa.Function // function in whose frame Suffix and Data live
+	Ctx    *ssa.Function   // function in whose frame Suffix and Data live
+	At     ssa.Instruction // the instruction of Ctx that writes the entry (WriteHeader, or the call of the writing helper)
 	Text   string
 	Exact  bool
 	Suffix ssa.Value
@@ -1342,14 +1421,14 @@ func c20TarEntries(w *World, fn *ssa.Function) (out []c20Entry, problems []strin
 			problems = append(problems, fmt.Sprintf("%s: %d Write calls follow the tar header (expected one)", fnName(fn), nw))
 			continue
 		}
-		out = append(out, c20ResolveEntry(w, fn, ci, fn, name, data, 0)...)
+		out = append(out, c20ResolveEntry(w, fn, ci, fn, ci, name, data, 0)...)
 	}
 	return
 }
 
-func c20ResolveEntry(w *World, site *ssa.Function, ci ssa.CallInstruction, ctx *ssa.Function, name, data ssa.Value, depth int) []c20Entry {
+func c20ResolveEntry(w *World, site *ssa.Function, ci ssa.CallInstruction, ctx *ssa.Function, at ssa.Instruction, name, data ssa.Value, depth int) []c20Entry {
 	pieces := c20Pieces(name)
-	e := c20Entry{Fn: site, Site: ci, Ctx: ctx, Data: c20Strip(data)}
+	e := c20Entry{Fn: site, Site: ci, Ctx: ctx, At: at, Data: c20Strip(data)}
 	allConst := true
 	for _, p := range pieces {
 		if !p.Const {
@@ -1395,7 +1474,7 @@ func c20ResolveEntry(w *World, site *ssa.Function, ci ssa.CallInstruction, ctx *
 				d = cc.Args[di]
 			}
 		}
-		out = append(out, c20ResolveEntry(w, site, ci, cs.Caller, cc.Args[ni], d, depth+1)...)
+		out = append(out, c20ResolveEntry(w, site, ci, cs.Caller, cs.Instr, cc.Args[ni], d, depth+1)...)
 	}
 	if len(out) == 0 {
 		e.Suffix = pieces[0].Val
@@ -2216,8 +2295,9 @@ func runC20(c *Ctx) {
 	byField := c20StoreTypeFields(w)
 	sinkFns := map[*ssa.Function]bool{} // functions that load a CID list into a store
 	for _, e := range byRole["entry"] {
-		construct := "export.entries(" + fnName(e.Fn) + ")"
+		construct := "export.entries(" + fnName(e.Ctx) + ")"
 		c.analysed(e.Fn)
+		c.analysed(e.Ctx)
 		// (c) raw block under its own CID
 		okRaw, whyRaw := false, "the data written is not RawData() of a node fetched from the DAG"
 		if d, ok := e.Data.(*ssa.Call); ok {
@@ -2242,7 +2322,9 @@ func runC20(c *Ctx) {
 							whyRaw = "the CID that names the file is not the CID the block was fetched by"
 						}
 					}
-					if ev := errVerdict(get); ev == nil || !c20UnreachableWithout(e.Site.Block(), edgesOfVerdict(ev).Accept) {
+					// judged where the node was fetched: at the write, or at the call of the writing
+					// helper, in the fetching function
+					if ev := errVerdict(get); ev == nil || e.At == nil || e.At.Parent() != get.Parent() || !c20UnreachableWithout(e.At.Block(), edgesOfVerdict(ev).Accept) {
 						okRaw, whyRaw = false, "the DAG fetch error is not enforced before the entry is written"
 					}
 				}
